@@ -1,6 +1,7 @@
 mod c01;
 mod c05;
 mod c10;
+mod c11;
 mod c15;
 mod dump;
 mod progen;
@@ -22,6 +23,7 @@ fn main() {
         "c05" => c05::main(&args),
         "c10" => c10::main(&args),
         "c15" => c15::main(&args),
+        "c11" => c11::main(&args),
         "probe" => probe::main(&args),
         other => {
             eprintln!("unknown subcommand {}", other);
